@@ -233,11 +233,16 @@ def file_worker(cases):
                     continue
                 if fmt in ("csv", "csv-cr"):
                     sheet.export(os.path.join(d, "s.csv"), "csv")
-                    # tie of the Lean model of the written text (Csv.rdsExportCsv, Props/C07_File.lean)
-                    ds = sheet.convert_to_tablib()
-                    recs = [[str(h) for h in (ds.headers or [])]] + [["" if c is None else str(c) for c in row] for row in ds]
-                    with open(os.path.join(d, "s.csv"), "rb") as fh:
-                        out.setdefault("rds", []).append((recs, fh.read().decode("utf-8", "surrogatepass")))
+                    # tie of the Lean model of the written text (Csv.rdsExportCsv, Props/C07_File.lean); the records are
+                    # read with a private-ish helper of the repo: if that is not there any more, the TIE breaks, nothing else
+                    try:
+                        ds = sheet.convert_to_tablib()
+                        recs = [[str(h) for h in (ds.headers or [])]] + [["" if c is None else str(c) for c in row] for row in ds]
+                        with open(os.path.join(d, "s.csv"), "rb") as fh:
+                            out.setdefault("rds", []).append((recs, fh.read().decode("utf-8", "surrogatepass")))
+                    except Exception as e:  # noqa: BLE001
+                        out.setdefault("ties", []).append({"what": "cannot read the records RowDataSheet hands to tablib (text tie of Csv.rdsExportCsv)",
+                                                           "error": repr(e)[:200]})
                     table = CSVSheetReader(d).sheets["s"].table
                 else:
                     sheet.export(os.path.join(d, "s.xlsx"), "xlsx")
